@@ -3,6 +3,8 @@ mod common;
 mod frag;
 #[cfg(not(feature = "inprocess"))]
 mod sched;
+#[cfg(not(feature = "inprocess"))]
+mod setsched;
 mod values;
 mod chan;
 mod script;
@@ -29,6 +31,8 @@ fn main() {
         "frag" => frag::run(),
         #[cfg(not(feature = "inprocess"))]
         "sched" => sched::run(),
+        #[cfg(not(feature = "inprocess"))]
+        "setsched" => setsched::run(),
         #[cfg(not(feature = "inprocess"))]
         "sched-child" => sched::child_main(&args[2..]),
         "values" => values::run(),
